@@ -23,7 +23,7 @@ Proof. intros a b H. unfold thaw in H. now injection H. Qed.
 Definition guard (cfg : config) (st : state) (x : op) : Prop :=
   match x with
   | OFailWalk _ => cleanup cfg = true
-  | ONew _ _ _ | OSet _ _ _ | OSetItem _ _ _ | OAppend _ _ | ODel _ _ | OCopy _ => quiet st (fst (step cfg x st))
+  | ONew _ _ _ | OSet _ _ _ | OSetItem _ _ _ | OAppend _ _ | ODel _ _ | OCopy _ | ORestore _ _ => quiet st (fst (step cfg x st))
   | OQuery _ _ | OFreeze _ | OUnfreeze _ | ODerive _ => True
   end.
 
@@ -136,6 +136,7 @@ Proof.
   - apply Hbp; auto. apply Frm_op_append.
   - rewrite fst_unit_ans in *. apply bump_ok; auto. apply Frm_op_del.
   - apply Hbp; auto. apply Frm_op_copy.
+  - apply Hbp; auto. apply Frm_op_restore.
   - rewrite fst_unit_ans. unfold op_failwalk. rewrite G. simpl. auto.
 Qed.
 
@@ -394,7 +395,7 @@ Qed.
 Definition guardb (cfg : config) (st : state) (x : op) : bool :=
   match x with
   | OFailWalk _ => cleanup cfg
-  | ONew _ _ _ | OSet _ _ _ | OSetItem _ _ _ | OAppend _ _ | ODel _ _ | OCopy _ => quietb st (fst (step cfg x st))
+  | ONew _ _ _ | OSet _ _ _ | OSetItem _ _ _ | OAppend _ _ | ODel _ _ | OCopy _ | ORestore _ _ => quietb st (fst (step cfg x st))
   | OQuery _ _ | OFreeze _ | OUnfreeze _ | ODerive _ => true
   end.
 
@@ -423,29 +424,53 @@ Fixpoint pure_outcomes (cfg : config) (ops : list op) (st : state) : bool :=
        end) && pure_outcomes cfg r (fst (step cfg x st))
   end.
 
+(* a TuplePrior owned by exactly one Model / Collection carries the frozen flag of that owner (b49160e + 916e580):
+   decided on the final state of every generated history *)
+Definition owners_of (st : state) (u : nat) : list nat :=
+  filter (fun o => match get st o with
+                   | Some ob => is_pm_kind (okind ob) &&
+                                existsb (fun kv : string * value => match snd kv with VRef x => Nat.eqb x u | _ => false end) (oattrs ob)
+                   | None => false end) (seq 0 (List.length (heap st))).
+Definition tuple_flags_ok (st : state) : bool :=
+  forallb (fun u => match get st u with
+                    | Some ub => match okind ub, owners_of st u with
+                                 | KTuple, [o] => match get st o with Some ob => Bool.eqb (ofrozen ub) (ofrozen ob) | None => true end
+                                 | _, _ => true
+                                 end
+                    | None => true end) (seq 0 (List.length (heap st))).
+
 Definition check_guard (c : case) : bool :=
   match c with
   | Case cl pr ops outs fz =>
       let cfg := mkConfig cl pr wrapper_cleanup derive_thaws setitem_transfers delattr_guarded tuples_frozen
-                          cache_counts_modifications in
+                          cache_counts_modifications tuple_flag_restored in
       (* with every proposed repair switched on no guard is needed (Proofs4.coherent_when_repaired) *)
       ((cleanup cfg && gdel cfg && gtuple cfg && epochs cfg) || guardedb cfg ops (init cfg)) && pure_outcomes cfg ops (init cfg)
+      && (negb (gtuple cfg && trestore cfg) || tuple_flags_ok (fst (run cfg ops (init cfg))))
   end.
 
-(* deepcopy leaves every existing object as it was: composition, id, frozen flag (and, unless the
-   proposed modification counter drops all caches, its cache) *)
+(* deepcopy leaves every existing object as it was: composition, id -- and flag and cache, except that
+   caches may have been dropped (modification counter) *)
 Theorem copy_keeps_originals : forall cfg st o t ob, get st t = Some ob ->
   exists ob', get (fst (step cfg (OCopy o) st)) t = Some ob' /\
-              okind ob' = okind ob /\ oattrs ob' = oattrs ob /\ onitems ob' = onitems ob /\ oidn ob' = oidn ob /\
-              ofrozen ob' = ofrozen ob /\ (epochs cfg = false -> ob' = ob).
+              okind ob' = okind ob /\ oattrs ob' = oattrs ob /\ onitems ob' = onitems ob /\ kept ob ob'.
 Proof.
-  intros cfg st o t ob G. cbn [step]. rewrite fst_unit_ans. unfold bump, op_copy.
-  pose proof (copy_val_appends FUEL (VRef o) (mkC (heap st) [] (ptab st) [])) as (ext & E & F).
-  destruct (copy_val FUEL (VRef o) (mkC (heap st) [] (ptab st) [])) as [cs v]. simpl in *.
-  assert (G1 : get (mkState (cheap cs) (inflight st) (cptab cs)) t = Some ob) by (rewrite E; now apply get_app_old).
-  destruct (epochs cfg); simpl.
-  - exists (with_cache ob []). rewrite get_clear_all, G1. simpl. repeat split; auto. discriminate.
-  - exists ob. repeat split; auto.
+  intros cfg st o t ob G. cbn [step]. rewrite fst_unit_ans. unfold bump.
+  assert (P : forall h, hframe (heap st) h -> (forall x a b, nth_error (heap st) x = Some a -> nth_error h x = Some b ->
+                 okind b = okind a /\ oattrs b = oattrs a /\ onitems b = onitems a) -> True) by auto.
+  pose proof (Frm_op_copy cfg o st) as (Hi & E & N).
+  assert (C : forall x, comp_at (fst (op_copy cfg o st)) x = comp_at st x \/ get st x = None).
+  { intros x. destruct (get st x) eqn:Gx; [left|now right]. unfold op_copy.
+    pose proof (copy_val_comp cfg false FUEL (VRef o) (copy_start st)) as Hc.
+    destruct (copy_val cfg false FUEL (VRef o) (copy_start st)) as [cs v]. simpl in *. unfold comp_at, get in *. simpl.
+    apply Hc. unfold copy_start. simpl. apply nth_error_Some. congruence. }
+  destruct (E t ob G) as (ob1 & G1 & K1).
+  destruct (C t) as [Ct|Ct]; [|congruence]. unfold comp_at in Ct. rewrite G1, G in Ct. injection Ct as C1 C2 C3.
+  destruct (op_copy cfg o st) as [st1 [u|e]] eqn:Eo; simpl in *.
+  - destruct (epochs cfg && true); simpl.
+    + exists (with_cache ob1 []). rewrite get_clear_all, G1. simpl. repeat split; auto. now right.
+    + exists ob1. repeat split; auto.
+  - exists ob1. repeat split; auto.
 Qed.
 
 (* the full statement of the property for a configuration: EVERY history *)
@@ -455,5 +480,5 @@ Definition coherent_everywhere (cfg : config) : Prop :=
     snd (run cfg pre (init cfg)) ++ [snd (run_query cfg o q (fresh (fst (run cfg pre (init cfg)))))].
 
 (* with the repaired wrapper a failing call is harmless *)
-Theorem repaired_allows_failing_calls : forall cl pr d i gd gt ep st o, guard (mkConfig cl pr true d i gd gt ep) st (OFailWalk o).
+Theorem repaired_allows_failing_calls : forall cl pr d i gd gt ep tr st o, guard (mkConfig cl pr true d i gd gt ep tr) st (OFailWalk o).
 Proof. intros. reflexivity. Qed.
